@@ -158,8 +158,11 @@ def run(ck: Checker):
     ck.rule('C07.PLACEHOLDER', 'lists pre-filled with the placeholder label are completely overwritten before they are returned (abstract execution over operand sizes, callee results abstracted)')
     gadget_rules(ck, B)
     ck.floor('C07.GADGET', 7)
-    ck.rule('C07.FOLD', 'the loop-only branch of the shifted adder (shift >= len(a)) instantiated for small widths and shifts: the result decodes to a + b * 2^shift on len(b) + shift bits, both endiannesses')
+    ck.rule('C07.FOLD', 'for-range templates instantiated for small widths, every operand value, both endiannesses, on a host circuit with gates of its own: the loop-only branch of the shifted adder (shift >= len(a)); add_sum_two_numbers = a + b and add_sum_two_numbers_with_shift = a + b * 2^shift with the while-loop bit counters replaced by their contract')
     fold_shift_branch(ck, B)
+    from .. import arith_folds
+    arith_folds.fold_adders(ck, 'C07.FOLD')
+    ck.floor('C07.FOLD', 3)
     worklist_rule(ck)
     transpose_rule(ck)
     n_ts = basis_rules(ck, [SUM], public)
@@ -170,6 +173,7 @@ def run(ck: Checker):
     R.check_fresh_generated(ck, 'C07.ADD-ONLY', [SUM])
     ck.floor('C07.ADD-ONLY', 20)
     R.check_args(ck, eff, 'C07.ARGS', [SUM, R.ARITH + '._utils'])
+    R.check_multiset(ck, 'C07.ARGS', [SUM, R.ARITH + '._utils'])
     ck.floor('C07.ARGS', 30)
     R.check_endian(ck, 'C07.ENDIAN', [SUM], public, ENDIAN_EXEMPT)
     ck.floor('C07.ENDIAN', 5)
